@@ -76,6 +76,7 @@ def run(chk, replay=None):
     real = ampl_run.REAL_THOROUGH if tier == "thorough" else ampl_run.REAL_QUICK
     cases = ampl_run.build_cases(chk, n_synth=250 if tier == "thorough" else 22, configs=configs, real=real, which={"closure"}, budget_s=1000 if tier == "thorough" else 55, reformulate=True, spec_fn=spec_source(tier))
     cases = cases + ampl_run.universe_cases(chk, stride=3 if tier == "thorough" else 12, offset=8, which={"closure"})
+    cases = cases + ampl_run.universe_cases(chk, stride=8 if tier == "thorough" else 80, offset=2, which={"closure"}, maxspin2=1, nfs=4, name="universe4")
     ok_cases = [c for c in cases if c[3] is not None]
     inadmissible = 0
     for label, reaction, cfg, model, rec in cases:
